@@ -3,7 +3,7 @@
    functions map to OCaml's); nat, positive, N, Z and byte stay the extracted inductives. *)
 From Coq Require Extraction.
 From Coq Require Import ExtrOcamlBasic.
-From KV Require Import Lib.Bytes Model.Date Spec.Calendar Model.Router Spec.RouterSpec Model.Headers Spec.HeaderStore Model.Parser Spec.HttpGrammar Model.Body Spec.ChunkedSpec Model.Server Spec.Framing Spec.ConnSpec Spec.ConnKnown Model.Printer Spec.MessageSpec Model.Pool Model.Epoll.
+From KV Require Import Lib.Bytes Model.Date Spec.Calendar Model.Router Spec.RouterSpec Model.Headers Spec.HeaderStore Model.Parser Spec.HttpGrammar Model.Body Spec.ChunkedSpec Model.Server Spec.Framing Spec.ConnSpec Spec.ConnKnown Model.Printer Spec.MessageSpec Model.Pool Model.Epoll Model.Memory.
 
 Extraction Language OCaml.
 Extraction "model.ml"
@@ -20,4 +20,5 @@ Extraction "model.ml"
   Server.serve_conn Server.reader_payload ConnSpec.spec_conn Framing.rfc_framing ConnSpec.raw_fields ConnKnown.known_F20c ConnKnown.known_F21
   Printer.write_response_empty Printer.write_response_bytes Printer.write_response Printer.write_request MessageSpec.decode_msg Headers.add Headers.new_nodate
   Pool.run Pool.first_rejected Pool.pool_init
-  Epoll.replay Epoll.ep_init Epoll.all_ended Epoll.live_records Epoll.open_streams.
+  Epoll.replay Epoll.ep_init Epoll.all_ended Epoll.live_records Epoll.open_streams
+  Memory.K_BODY Memory.BUFWRITER Printer.PROBE_MAX Body.BUF_SIZE.
